@@ -110,7 +110,19 @@ NEEDS.update({
  "i19": "interleaving: metrics scrape overlapping a reload that changes the number of pools",
  "i20": "input: last range ends exactly one address after the pool subnet",
 })
-OTHER = {'b02': ['C03', 'C05'], 'a04': ['C10'], 'd02': ['C06'], 'd09': ['C05', 'C06'], 'e06': ['C08', 'C05'], 'e01': ['C09', 'C05'], 'e10': ['C04'], 'e04': ['C01'], 'f13': ['C12'], 'd01': ['C04'], 'i02': ['C05'], 'i06': ['C09', 'C05'], 'i04': ['C01'], 'g02b': ['C06'], 'g10': ['C04'], 'g19': ['C06'], 'f16a': ['C15'], 'f15b': ['C16']}
+NEEDS.update({
+ "j01": "interleaving: the release API (locking the wrong pod key) has checked that no such pod runs, then the controller creates the next incarnation and it is bound with the reserved IP, then the release goes on",
+ "j03": "multi-step: pool pod running, its allocation lost (reload drops and restores the range), pod-IP sync re-adopts it with the wrong stored policy, pod goes away, resync decides",
+ "j04": "interleaving: unbind of a late event takes its snapshot before the pod lock; the successor is bound in the window",
+ "j07": "fault + state: sized pool whose used+reserved IPs equal its size; the take-over of a reserved IP during filter fails with an API error",
+ "j08": "fault: the 2nd or later FloatingIP deletion of a multi-IP release fails; retries then never update the tables",
+ "j09": "ordering + fault: an administrator's labelled FloatingIP exists unseen; a multi-range allocation picks that IP, the create fails with AlreadyExists and the rollback deletes the administrator's object",
+ "j10": "fault: cloud provider UnAssignIP fails for one IP of a multi-IP key and succeeds for a later one, in resync or the release API",
+ "j17": "input: dead container whose port file is truncated / not JSON, so the port clean callback fails every round",
+ "j18": "multi-step: a stale policy chain still referenced by a pod chain (policy vanished unseen), then a periodic sync",
+ "j19": "interleaving: first request for a network defined only in the network conf dir, concurrent with any other CNI request",
+})
+OTHER = {'j08': ['C05'], 'j01': ['C04'], 'b02': ['C03', 'C05'], 'a04': ['C10'], 'd02': ['C06'], 'd09': ['C05', 'C06'], 'e06': ['C08', 'C05'], 'e01': ['C09', 'C05'], 'e10': ['C04'], 'e04': ['C01'], 'f13': ['C12'], 'd01': ['C04'], 'i02': ['C05'], 'i06': ['C09', 'C05'], 'i04': ['C01'], 'g02b': ['C06'], 'g10': ['C04'], 'g19': ['C06'], 'f16a': ['C15'], 'f15b': ['C16']}
 only = sys.argv[1:]
 for sid, (prop, pkg) in SEEDS.items():
     if only and sid not in only: continue
